@@ -31,6 +31,17 @@ CHECKS["C08"] = dict(
     ref="DESIGN.md section 4, C08",
 )
 
+CHECKS["C01"] = dict(
+    category="exploration",
+    technique="bounded-exhaustive enumeration of programs and inputs (expression trees, statement skeletons, storage x assignment grids) against a reference interpreter",
+    text="Four program families are enumerated completely up to the stated tree sizes; every program is compiled, linked and run "
+         "on a fresh VM for every input of its grid, and return value plus all globals are compared with a reference interpreter "
+         "written over the generator's own AST. Within the bound this is every program of the space, not a sample.",
+    note="Trusted: nslmc/refsem.py (C-like semantics as listed in the statement) and the renderer. Behaviour the statement leaves "
+         "open (DESIGN.md R1) is executed but not compared. Programs larger than the bounds and values outside the grids are not covered.",
+    ref="DESIGN.md section 4, C01",
+)
+
 PENDING = {}
 
 
